@@ -254,7 +254,8 @@ pub fn cases(tier: Tier) -> Vec<Case> {
             }
         }
         // the corner base+count-1 == u32::MAX
-        for (base, count) in [(u32::MAX, 1u32), (u32::MAX - 1, 2), (u32::MAX - 2, 3)] {
+        // ... and windows that reach beyond it (the indices are plain integers: 4294967295, 4294967296, ...)
+        for (base, count) in [(u32::MAX, 1u32), (u32::MAX - 1, 2), (u32::MAX - 2, 3), (u32::MAX, 2), (u32::MAX - 1, 3), (u32::MAX, 3)] {
             for init in subsets(count) {
                 v.push(Case { pattern: p.to_string(), base, count, initial: init, bystanders: false, rolls: count + 2, delete_roller: false });
             }
@@ -270,7 +271,7 @@ pub fn run(ctx: &Ctx) -> Report {
     let mut rep = Report::new("model_checking");
     rep.set(
         "rule",
-        "exhaustive over pattern shape (index in file name / directory component / repeated / with set and unset $ENV / .gz / .zst / next to the active file) x base {0,1,3,4e9, corner base+count-1=u32::MAX} \
+        "exhaustive over pattern shape (index in file name / directory component / repeated / with set and unset $ENV / .gz / .zst / next to the active file) x base {0,1,3,4e9, corners base+count-1 = u32::MAX and beyond} \
          x count 0..4(5) x every subset of the window as initial archives (gaps) x bystander files (index just outside the window, non-numeric index, the pattern text, unrelated files) x chains of count+3 rolls; \
          recursive snapshot after every roll compared with a shift-register reference; each roll of each chain is one evaluation. Non-trivial = case with count >= 2 or bystanders",
     );
